@@ -21,7 +21,7 @@ var positionFields = map[string]bool{"LineNumber": true, "StartCharIndex": true,
 func c16d(c *Ctx) {
 	elm := c.Fn("emitter.emitLineMarker")
 	nReads, nMarker := 0, 0
-	for _, pkg := range []string{"parser", "emitter", "ast", ""} {
+	for _, pkg := range []string{"parser", "emitter", "ast", "token", ""} {
 		for _, fn := range c.W.FuncsOf(pkg) {
 			if isTestFunc(c.W, fn) {
 				continue
@@ -43,7 +43,9 @@ func c16d(c *Ctx) {
 						_, t, f, ok := fieldAddrOf(y.Addr)
 						switch {
 						case ok && typeIs(t, "parser", "ParseError"):
-						case ok && typeIs(t, "token", "Token") && positionFields[f]:
+						case ok && typeIs(t, "token", "Token") && positionFields[f] && f == field:
+							// a copy into the same field of another token (the end line stored as a
+							// start line would move the marker of the construct)
 						default:
 							return "stored into " + pretty(c.term(fn, y.Addr))
 						}
